@@ -544,6 +544,42 @@ def record(job):
     return out, stats
 
 
+def nest_after_with(prog: dict) -> dict:
+    """The known defect of the FPCore backend written out as a program: every statement that follows a `with` block in its own block is
+    moved to the end of that block's body (the backend hands the compiled continuation to the body).  What the reference evaluator and
+    the re-read function return for a program of that shape is compared with the machine's run of THIS program too: agreeing with it is
+    the known finding, differing from it as well is something else."""
+    import copy
+    q = copy.deepcopy(prog)
+    for fn in q['funcs'].values():
+        blocks = fn['blocks']
+
+        def fix(bid):
+            blk = blocks[bid - 1]
+            i = 0
+            while i < len(blk):
+                st = blk[i]
+                if st['k'] == 'With':
+                    tail = blk[i + 1:]
+                    if tail:
+                        blocks[st['b'] - 1].extend(tail)
+                        del blk[i + 1:]
+                    fix(st['b'])
+                elif st['k'] == 'If':
+                    fix(st['t'])
+                    fix(st['f'])
+                elif st['k'] == 'If1':
+                    fix(st['t'])
+                elif st['k'] in ('While', 'For'):
+                    fix(st['b'])
+                i += 1
+        fix(1)
+    return q
+
+
+NESTED = 100000
+
+
 def run(tier: str) -> int:
     rep = core.Report('C12', tier)
     stats = Counter()
@@ -556,7 +592,17 @@ def run(tier: str) -> int:
             p['pid'] = len(progs)
             progs.append(p)
     send = [{k: v for k, v in p.items() if k not in ('kind', 'name', 'shape', 'core')} for p in progs]
+    # programs with statements after an inner `with` block also run in the form the backend's known defect gives them
+    for p in progs:
+        if p['kind'] in ('titanfp', 'reread') and p['shape']:
+            q = nest_after_with({k: v for k, v in p.items() if k not in ('kind', 'name', 'shape', 'core')})
+            q['pid'] = p['pid'] + NESTED
+            send.append(q)
     mm, skips, gen, dis = progrun.run_machine(send)
+    nested_differs = {(m[0] - NESTED, m[1]) for m in mm if m[0] >= NESTED}
+    nested_unknown = {(s_[0] - NESTED, s_[1]) for s_ in skips if s_[0] >= NESTED}
+    mm = [m for m in mm if m[0] < NESTED]
+    skips = [s_ for s_ in skips if s_[0] < NESTED]
     rep.add_tlc(gen, dis)
     byp = {p['pid']: p for p in progs}
     mm, skips = progrun.split_big(byp, mm, skips)
@@ -575,7 +621,11 @@ def run(tier: str) -> int:
         if p['kind'] in ('titanfp', 'reread') and p['name'] == 'hand_target_shadow':
             key['shape'] = 'loop-target-shadows-a-variable-read-after-the-loop'
         elif p['kind'] in ('titanfp', 'reread') and p['shape']:
-            key['shape'] = 'operations-after-a-with-block'
+            if (pid, idx) in nested_differs and (pid, idx) not in nested_unknown:
+                # not what nesting the continuation into the block gives either: not the known finding
+                key['nested'] = 'differs-from-the-nested-evaluation-too'
+            else:
+                key['shape'] = 'operations-after-a-with-block'
         elif p['kind'] in ('titanfp', 'reread') and clause == 'value-zero-sign' and 'MPFixedContext(-1)' in p['src']:
             key['shape'] = 'negative-zero-of-MPFixedContext(-1)-is-lost-by-precision-integer'
         rep.mismatch(key, {'program': p['src'], 'kind': p['kind'], 'input': p['inputs'][idx - 1], 'clause': clause, 'machine_error': merr,
